@@ -209,6 +209,13 @@ def check(case, rec=None):
             fails += f
     tol = case["tol"]
     ok, e = guard(u.makerings, ds2, tol)
+    if ok and isinstance(uo, unitcell.unitcell):
+        # a second phase makes its rings afterwards: this object's rings are still its own
+        mine = (list(u.ringds), {k: list(map(tuple, v)) for k, v in u.ringhkls.items()})
+        guard(uo.makerings, 0.5 * (ds1 + ds2), tol * 2)
+        if (list(u.ringds), {k: list(map(tuple, v)) for k, v in u.ringhkls.items()}) != mine:
+            fails.append(fail("history", "the rings of one unitcell object changed when another object (%s centring) "
+                              "made its rings" % other, call="makerings/instances"))
     if not ok:
         fails.append(exc_failure("makerings", e))
     else:
